@@ -147,9 +147,17 @@ Lemma unsp_ax : forall a, a < naxes f -> inb a (f_data_axes f) = false ->
             cdesc (w_vars w) c (sn w a) [] /\ ~ In (sn w a) (DN w) /\ In (sn w a) (VN w).
 Proof.
   intros a Ha Hi. pose proof (s_axdesc _ _ _ _ _ _ _ S a Ha) as H. unfold axdesc in H. rewrite Hi in H.
-  destruct (wf_unspanned f Hwf a Ha Hi) as [[c Ec] _]. rewrite Ec in H. destruct H as [s [H1 [H2 H3]]].
+  destruct (wf_unspanned f Hwf a Ha Hi) as [[c Ec] _]. rewrite Ec in H. destruct H as [s [H1 [H2 [H3 _]]]].
   assert (E : sn w a = s) by (unfold sn; rewrite H1; reflexivity). rewrite E. exists c. splits; try assumption; try reflexivity.
   eapply cdesc_in_vn; exact H2.
+Qed.
+
+Lemma unsp_kind : forall a, a < naxes f -> inb a (f_data_axes f) = false ->
+  exists v, fv (w_vars w) (sn w a) = Some v /\ v_kind v = KNum.
+Proof.
+  intros a Ha Hi. pose proof (s_axdesc _ _ _ _ _ _ _ S a Ha) as H. unfold axdesc in H. rewrite Hi in H.
+  destruct (wf_unspanned f Hwf a Ha Hi) as [[c Ec] _]. rewrite Ec in H. destruct H as [s [H1 [_ [_ H4]]]].
+  assert (E : sn w a = s) by (unfold sn; rewrite H1; reflexivity). rewrite E. exact H4.
 Qed.
 
 Lemma dd_dn : forall x, In x dd -> In x (DN w).
@@ -168,7 +176,7 @@ Lemma dv_attr_generic : forall (l1 l2 l3 l4 : list string),
   assoc "coordinates" a = match l2 with [] => None | _ => Some (join_sp l2) end /\
   assoc "ancillary_variables" a = match l3 with [] => None | _ => Some (join_sp l3) end /\
   assoc "cell_methods" a = match l4 with [] => None | _ => Some (join_sp l4) end /\
-  assoc "bounds" a = None.
+  assoc "bounds" a = None /\ assoc "compress" a = None.
 Proof. intros [|? ?] [|? ?] [|? ?] [|? ?]; simpl; repeat split; reflexivity. Qed.
 
 Lemma tokens_of_list : forall l, Forall token l ->
@@ -188,7 +196,14 @@ Lemma dv_bounds : attr "bounds" dv = None.
 Proof.
   unfold attr, dv, data_var; simpl v_attrs.
   destruct (dv_attr_generic (entries (meas f) mns) (w_coords w) (entries (fancs f) ans) (map (cm_string w) (f_cms f)))
-    as [_ [_ [_ [_ E]]]]. exact E.
+    as [_ [_ [_ [_ [E _]]]]]. exact E.
+Qed.
+
+Lemma dv_compress : attr "compress" dv = None.
+Proof.
+  unfold attr, dv, data_var; simpl v_attrs.
+  destruct (dv_attr_generic (entries (meas f) mns) (w_coords w) (entries (fancs f) ans) (map (cm_string w) (f_cms f)))
+    as [_ [_ [_ [_ [_ E]]]]]. exact E.
 Qed.
 
 Lemma pdesc_in : forall cs ns, Forall2 (fun c n => pdesc (w_vars w) n (dims_of w (c_axes c))) cs ns ->
@@ -278,6 +293,21 @@ Proof.
   - subst. rewrite dv_bounds in Hb. discriminate.
 Qed.
 
+(* the dataset written has no list variable: nothing is compressed by gathering *)
+Lemma no_compress : has_compress D = false.
+Proof.
+  unfold has_compress. destruct (existsb _ (d_vars D)) eqn:E; [|reflexivity].
+  apply existsb_exists in E as [v [Hv Hc]]. destruct (in_dvars v Hv) as [H|H].
+  - destruct (i_attrs w (s_inv _ _ _ _ _ _ _ S) v H) as [Ea|[b [Ea _]]]; unfold attr in Hc; rewrite Ea in Hc; discriminate.
+  - subst v. rewrite dv_compress in Hc. discriminate.
+Qed.
+
+Lemma implied_id : forall l, implied D l = l.
+Proof. intros l. unfold implied. rewrite no_compress. reflexivity. Qed.
+
+Lemma referenced_eq : referenced D = bounds_vars D ++ flat_map (refs_of D) (d_vars D).
+Proof. unfold referenced, compress_vars. rewrite no_compress. reflexivity. Qed.
+
 Definition co_of (v : var) : list string :=
   flat_map (fun dim => match is_coordvar D dim with
                        | Some c => if String.eqb (v_name c) (v_name v) then [] else [v_name c]
@@ -289,7 +319,7 @@ Lemma refs_of_eq : forall v, refs_of D v = direct_of v ++
   flat_map (fun n => match find_var n D with
                      | Some x => match attr "bounds" x with Some b => [b] | None => [] end
                      | None => [] end) (direct_of v).
-Proof. reflexivity. Qed.
+Proof. intros v. unfold refs_of, implied. rewrite no_compress. reflexivity. Qed.
 
 Lemma map_snd_combine : forall {A B} (l1 : list A) (l2 : list B), length l2 = length l1 -> map snd (combine l1 l2) = l2.
 Proof.
@@ -320,7 +350,7 @@ Qed.
 
 Lemma referenced_vn : forall n, In n (referenced D) -> In n (VN w).
 Proof.
-  intros n H. unfold referenced in H. apply in_app_or in H as [H|H].
+  intros n H. rewrite referenced_eq in H. apply in_app_or in H as [H|H].
   - unfold bounds_vars in H. apply in_flat_map in H as [v [Hv Hn]].
     destruct (attr "bounds" v) as [b|] eqn:E; [|destruct Hn]. destruct Hn as [Hn|[]]. subst.
     eapply bounds_attr_vn; eassumption.
@@ -338,7 +368,7 @@ Proof. simpl. apply in_or_app; right; left; reflexivity. Qed.
 
 Lemma old_referenced : forall v, In v (w_vars w) -> In (v_name v) (referenced D).
 Proof.
-  intros v Hv. unfold referenced.
+  intros v Hv. rewrite referenced_eq.
   assert (Hdirect : In (v_name v) (direct_of dv) -> In (v_name v) (bounds_vars D ++ flat_map (refs_of D) (d_vars D))).
   { intros H. apply in_or_app; right. apply in_flat_map. exists dv. split; [exact dv_in|].
     rewrite refs_of_eq. apply in_or_app; left; exact H. }
@@ -457,10 +487,7 @@ Definition h_aux (n : string) : list rcon :=
   match find_var n D with
   | None => []
   | Some c => match sub_dims (v_dims c) dd with
-              | [] => match v_dims c with
-                      | [] => [mk_rcon CDim D c ["@" +++ n] ""]
-                      | _ => [mk_rcon CAux D c ["@" +++ n] ""]
-                      end
+              | [] => [mk_rcon (scalar_class (v_kind c)) D c ["@" +++ n] ""]
               | axes => [mk_rcon CAux D c axes ""]
               end
   end.
@@ -478,8 +505,9 @@ Proof.
   destruct (Hl a (or_introl eq_refl)) as [Ha Hi].
   destruct (IH (fun x Hx => Hl x (or_intror Hx))) as [IH1 IH2].
   destruct (unsp_ax a Ha Hi) as [c [Ec [Hs [[v [F1 [F2 F3]]] [Hnd Hvn]]]]].
+  destruct (unsp_kind a Ha Hi) as [v' [F1' Fk]]. rewrite F1 in F1'. inversion F1'; subst v'; clear F1'.
   unfold dimcoords_of. simpl. fold (dimcoords_of f l). rewrite Ec.
-  unfold h_aux at 1, k_scalar at 1. rewrite (find_var_old _ _ F1), F2. simpl. split.
+  unfold h_aux at 1, k_scalar at 1. rewrite (find_var_old _ _ F1), F2, Fk. simpl. split.
   - constructor; [|exact IH1].
     destruct (find_dimcoord_some _ _ _ Ec) as [_ [Et Ea]]. unfold con_iso. rewrite Et, Ea. splits.
     + reflexivity.
@@ -619,7 +647,7 @@ Lemma read_var_eq : read_var D dv =
                 ++ flat_map h_meas (pairs_of (tokens "cell_measures" dv))
                 ++ flat_map h_anc (tokens "ancillary_variables" dv);
      rs_cms := [] |}.
-Proof. reflexivity. Qed.
+Proof. unfold read_var, coord_candidates, implied. rewrite no_compress. reflexivity. Qed.
 
 Lemma unsp_spec : forall a, In a (unsp f) <-> a < naxes f /\ inb a (f_data_axes f) = false.
 Proof.
@@ -671,13 +699,13 @@ Qed.
 
 Lemma roundtrip_D : exists r, read_skel D = [r] /\ iso f lab r /\ rs_ncvar r = dvn.
 Proof.
-  unfold read_skel. rewrite exactly_one. simpl map. eexists. split; [reflexivity|]. split; [|reflexivity].
+  unfold read_skel. rewrite exactly_one. cbn [map]. rewrite read_var_eq. eexists. split; [reflexivity|]. split; [|reflexivity].
   unfold iso. simpl. splits.
   - unfold dd. apply map_ext_in. intros a Ha. symmetry. apply lab_data; exact Ha.
   - exact rs_axes_eq.
   - exact rs_cons_iso.
   - rewrite dv_tok_cms. unfold cms_expected. rewrite map_map. apply map_ext_in. intros m Hm. simpl. f_equal.
-    rewrite map_map. apply map_ext_in. intros a Ha. apply label_eq. apply (wf_cms f Hwf m Hm). exact Ha.
+    rewrite map_map. apply map_ext_in. intros a Ha. rewrite <- read_var_eq. apply label_eq. apply (wf_cms f Hwf m Hm). exact Ha.
 Qed.
 
 Lemma lab_inj : forall a a', a < naxes f -> a' < naxes f -> lab a = lab a' -> a = a'.
